@@ -189,7 +189,9 @@ def check_free(chk, prop, cases):
                 if got != exp:
                     k = next((i for i, (a, b) in enumerate(zip(got, exp)) if a != b), min(len(got), len(exp)))
                     what = "span" if k < len(got) and k < len(exp) and got[k][:4] == exp[k][:4] else "item"
-                    if what == "span":
+                    if what == "span" and exp[k][0] == "c":
+                        what = "span-of-comment"
+                    elif what == "span":
                         # does the statement share a physical line with another one (`;`)?
                         others = [e for j, e in enumerate(exp) if j != k and e[0] == "s"]
                         if any(not (e[5] < exp[k][4] or e[4] > exp[k][5]) for e in others):
@@ -540,11 +542,12 @@ def fixed_render(stmts, wrap, cont, cstyle, salt):
             else:
                 cut = room
                 # never end a line in a blank, never cut directly after the construct name (known finding KF-C06-2)
-                while cut > 1 and (text[cut - 1] == " " or (first and cut <= head + 1)):
+                # ... and never in '&' (the form detector takes a trailing '&' for free form; class restriction, DESIGN.md 4.3)
+                while cut > 1 and (text[cut - 1] in " &" or (first and cut <= head + 1)):
                     cut -= 1
                 if cut <= 1 or (first and cut <= head + 1):
                     cut = room
-                    while cut < len(text) and text[cut - 1] == " ":
+                    while cut < len(text) and text[cut - 1] in " &":
                         cut += 1
                 chunk, text = text[:cut], text[cut:]
             lines.append(("%-5s " % lab if first else "     " + cont) + chunk)
@@ -643,14 +646,20 @@ def work_progfixed(case):
     return {"id": case["id"], "out": out}
 
 
+CONT_POOL = list("123456789&+x$!*cC#.-=:;%@ABZ/\\")
+
+
 def program_fixed(chk, tier):
     from .. import render
     progs = programs.generate(chk, tier, chk.seed, ("sweep", "sim") if tier == "quick" else ("exh", "sweep", "sim"))
     cases = []
     for p in progs:
         srcs = {"free": p["src"]}
-        variants = [(72, "1", "C"), (40, "!", "*"), (17, "x", "!"), (30, "*", "c")] if tier != "quick" else \
-            [[(72, "1", "C"), (40, "!", "*"), (17, "$", "c"), (30, "c", "C")][p["id"] % 4]]
+        # column 6 may hold any character other than blank and zero
+        cc = CONT_POOL[p["id"] % len(CONT_POOL)]
+        c2 = CONT_POOL[(p["id"] * 7 + 3) % len(CONT_POOL)]
+        variants = [(72, cc, "C"), (40, "!", "*"), (17, c2, "!"), (30, "*", "c")] if tier != "quick" else \
+            [[(72, cc, "C"), (40, "!", "*"), (17, c2, "c"), (30, "c", "C")][p["id"] % 4]]
         kinds = {}
         for w, c, st in variants:
             srcs["fix%d" % w] = fixed_render(p["stmts"], w, c, st, p["id"])
